@@ -470,3 +470,44 @@ func (vc *VC) assumeClosed(h Heap, c string) {
 		vc.emit(ax)
 	}
 }
+
+
+// ---- ghost events: a counter and the arguments of the latest occurrence ----
+
+func (vc *VC) evCounter(name string) string {
+	return vc.compPseudo("$ev:"+name+":n", "Int")
+}
+
+func (vc *VC) evArgTypes(name string) []types.Type {
+	ev := vc.P.cs.Events[name]
+	if ev == nil {
+		sfail("undeclared event %s", name)
+	}
+	pkg := vc.P.typesPkg(ev.Pkg)
+	if pkg == nil {
+		sfail("event %s: package %s not loaded", name, ev.Pkg)
+	}
+	env := &Env{vc: vc, pkg: pkg, vars: map[string]TV{}, heap: Heap{m: map[string]string{}}, top0: "1"}
+	var out []types.Type
+	for _, p := range ev.Params {
+		out = append(out, env.resolveType(p.Type))
+	}
+	return out
+}
+
+func (vc *VC) evArg(name string, i int) (string, types.Type) {
+	tys := vc.evArgTypes(name)
+	if i < 0 || i >= len(tys) {
+		sfail("event %s has no argument %d", name, i)
+	}
+	return vc.compPseudo(fmt.Sprintf("$ev:%s:%d", name, i), vc.sorts.sortOf(tys[i])), tys[i]
+}
+
+func (vc *VC) evComps(name string) []string {
+	out := []string{vc.evCounter(name)}
+	for i := range vc.evArgTypes(name) {
+		c, _ := vc.evArg(name, i)
+		out = append(out, c)
+	}
+	return out
+}
